@@ -99,10 +99,88 @@ func selftest() int {
 			}
 		}
 	}
+	// 3. random-concrete runs of real harnesses: interpreter vs native
+	nrand, agree := 0, 0
+	seed0 := int64(1)
+	if s := os.Getenv("VERIF_SEED"); s != "" {
+		fmt.Sscan(s, &seed0)
+		seed0 = seed0*1000 + 1
+	}
+	type rh struct {
+		pkg, fn string
+		params  map[string]int
+	}
+	rhs := []rh{
+		{"p9", "VerifH_C01_Encode", map[string]int{"L": 3, "N": 2, "P": 3}},
+		{"p9", "VerifH_C01_Decode", map[string]int{"L": 3, "N": 2, "P": 3}},
+		{"p9", "VerifH_C20_ModeP9OSP9", map[string]int{}},
+		{"p9", "VerifH_C12_Server", map[string]int{"VL": 9, "VT": 4}},
+		{"p9", "VerifH_C09_Names", map[string]int{"L": 3}},
+	}
+	rounds := 6
+	if os.Getenv("VERIF_TIER") == "thorough" {
+		rounds = 40
+	}
+	var nt *NativeTest
+	for _, h := range rhs {
+		f := l.Func(ModulePath+"/"+h.pkg, h.fn)
+		if f == nil {
+			fmt.Println("SELFTEST FAIL: missing harness", h.fn)
+			return 1
+		}
+		if nt == nil {
+			nt, err = BuildNativeTest(repo, filepath.Join(vd, "harness"), h.pkg)
+			if err != nil {
+				fmt.Println("SELFTEST FAIL: native build:", err)
+				return 1
+			}
+			defer nt.Close()
+		}
+		for k := 0; k < rounds; k++ {
+			ex := &Explorer{L: l, Fn: f, Params: h.params, Workers: 1, TimeoutMs: 10000, RandSeed: seed0 + int64(k)}
+			res := ex.Run()
+			nrand++
+			tape := filepath.Join(nt.Tmp, fmt.Sprintf("%s_%d.json", h.fn, k))
+			writeReplayFile(tape, "", h.pkg, &Violation{Harness: h.fn, Params: h.params, Tape: res.RandTape})
+			nres, out := nt.Run(tape, 30*time.Second)
+			var nout []string
+			for _, line := range strings.Split(out, "\n") {
+				if strings.HasPrefix(line, "VERIF-OUT ") {
+					nout = append(nout, strings.TrimPrefix(line, "VERIF-OUT "))
+				}
+			}
+			var iout []string
+			if len(res.Outs) > 0 {
+				iout = res.Outs[0]
+			}
+			ok := strings.HasPrefix(nres, res.RandOutcome) || (strings.HasPrefix(nres, "not-a-model") && res.RandOutcome == "not-a-model")
+			if len(nout) != len(iout) {
+				ok = false
+			} else {
+				for i := range nout {
+					if nout[i] != iout[i] {
+						ok = false
+					}
+				}
+			}
+			if !ok {
+				fails++
+				fmt.Printf("SELFTEST MISMATCH %s seed %d: interp=%q native=%q outs %d/%d\n", h.fn, seed0+int64(k), res.RandOutcome, nres, len(iout), len(nout))
+				for i := 0; i < len(iout) && i < len(nout); i++ {
+					if iout[i] != nout[i] {
+						fmt.Printf("   interp: %s\n   native: %s\n", iout[i], nout[i])
+						break
+					}
+				}
+			} else {
+				agree++
+			}
+		}
+	}
 	if fails > 0 {
 		return 1
 	}
-	fmt.Printf("selftest ok (%d translator-validation harnesses)\n", n)
+	fmt.Printf("selftest ok (%d fixed translator-validation harnesses, %d/%d random-concrete runs agree with native execution)\n", n, agree, nrand)
 	_ = os.Stdout
 	return 0
 }
